@@ -60,7 +60,7 @@ def world_for(outcome):
     if outcome == 'own-endpoint-under-delete-table':
         rx = [('^dtn://node/$', 'delete'), ('^dtn://.*', 'forward')]
     tx = [('^dtn://far/.*', 'dtn://next/', None), ('^dtn://farfrag/.*', 'dtn://next/', 120), ('^dtn://fartiny/.*', 'dtn://next/', 60),
-          ('^dtn://rpt/.*', 'dtn://next/', None), ('^ipn:9\\..*', 'dtn://next/', None)]
+          ('^dtn://rpt/.*', 'dtn://next/', None), ('^ipn:9\\..*', 'dtn://next/', None), ('^ipn:977000\\.100\\..*', 'dtn://next/', None)]
     return BpWorld(dict(node_id=NODE, rx_routes=rx, tx_routes=tx, cl_refuse_over=(260 if outcome == 'forward-refused-by-the-cl' else None)))
 
 
@@ -79,6 +79,9 @@ def bundle_for(outcome, flags, report_to, seq=1, subject='clock'):
     if subject == 'fragment' and not pri['flags'] & B.FLAG_IS_FRAGMENT:
         # the subject is itself a fragment of a larger bundle (forwarded or deleted as such)
         pri.update(flags=pri['flags'] | B.FLAG_IS_FRAGMENT, frag_offset=100, total_adu=1000)
+    if subject == 'ipn3':
+        # three-number ipn endpoint IDs as the subject's source (its report-to is given by the caller)
+        pri.update(src='ipn:977000.5.1')
     if subject == 'clockless':
         # a source without a clock: creation time zero, told apart by the sequence number, with an age block
         pri.update(ts=(0, 7 + seq))
@@ -222,7 +225,7 @@ def run_outcome(params, known):
     keys = set()
     count = 0
     samples = []
-    combos = [('dtn:none', 'clock'), ('dtn://rpt/x', 'clock'), ('dtn://rpt/x', 'clockless')]
+    combos = [('dtn:none', 'clock'), ('dtn://rpt/x', 'clock'), ('dtn://rpt/x', 'clockless'), ('ipn:977000.100.7', 'ipn3')]
     if params.get('tier') == 'thorough':
         combos += [('dtn://rpt/x', 'crc0'), ('dtn://rpt/x', 'crc2'), ('ipn:9.9', 'clock'), ('dtn:none', 'clockless')]
         if outcome in ('forward', 'delete-by-route', 'forward-without-tx-route', 'no-matching-route'):
@@ -256,7 +259,7 @@ ASSUMPTIONS = [
     'an absent report-to endpoint is encoded as dtn:none (RFC 9171 has no other way to omit it)',
     'the sixteen outcomes are produced by routing tables / a BIB or BCB with an unknown security context / an undecodable BCB / a route MTU of 120 octets',
     'thorough tier: also subjects without CRC / with CRC-32, an ipn report-to endpoint, and subjects that are themselves fragments (fragment fields of the report are not judged)',
-    'subjects: a bundle with a creation time, and one from a clockless source (creation time 0, sequence number, age block)',
+    'subjects: a bundle with a creation time, one from a clockless source (creation time 0, sequence number, age block), and one whose source and report-to are three-number ipn endpoint IDs',
     'a report is required for deliver / forward / delete-by-route / own-endpoint when a requested action occurred (the title says "exactly when requested"); for the other outcomes only reports that are emitted are judged',
 ]
 
